@@ -47,7 +47,8 @@ MANIFEST = dict(
        "exact correspondence across the block boundaries), floating-point backward-error bounds ('residual at rounding level' is measured, not proved). "
        "The forms that go through the explicit inverse (row(expr,i), evaluated inv(A)) are only forward stable; they are generated on well-conditioned systems "
        "(dominant power-of-two diagonal / float systems with bounded condition) so that the 1e-9 residual bound is sound. trans(solve(..)), column(solve(..),i), v % solve(..), row(inv(A),i) "
-       "do not compile in the pinned tree (findings_proposed/C02.md) and are not exercised. "
+       "do not compile in the pinned tree (findings_proposed/C02.md) and are not exercised there; a syntax-only compile probe per tree (trans_forms_level) switches the forms t/c/l (trans(solve), column(solve,k), e_i % solve) on "
+       "as soon as the transpose rewrite instantiates (evidence field transposed_solve_forms says which case applied). "
        "Open known finding C02-cg-zero-rhs-nan (F-C02-4): conjugate gradient with a zero vector right-hand side returns NaN; the check prints KNOWN-FINDING for exactly that input class.",
   technique="Lean 4 proofs (course-of-values recurrences, elimination invariants by induction over the steps, loop invariant of the rank-one update) + exact-mode differential correspondence with the C++ (ASan/UBSan, FE_INEXACT) + independent residual oracles",
   design="§6 C02, §14 C02")
@@ -410,6 +411,7 @@ def float_tri(r, n, upper, unit, bits=8):
 
 FORMS_ANY = "siabexy"        # every right-hand side kind (x, y: explicit inverse evaluated as a matrix)
 FORMS_MAT = "rjpqmn"         # lazily consumed matrix solves: matrix right-hand sides only
+FORMS_TRANS = "tcl"          # trans(solve), column(solve,k), e_i % solve: only where the transpose rewrite compiles
 TAGS = ["spd", "semi", "lu", "tl", "tu", "tul", "tuu"]
 
 
@@ -418,13 +420,13 @@ def gen_solve(r, n, tag=None, tol=False, form=None, left=None, K=None):
     left = r.chance(1, 2) if left is None else left
     oa = r.choice("rc")
     if K is None:
-        K = r.choice("rc") if (form is not None and form in FORMS_MAT) else r.choice(["v", "v", "r", "c"])
+        K = r.choice("rc") if (form is not None and form in FORMS_MAT + FORMS_TRANS) else r.choice(["v", "v", "r", "c"])
     if form is None:
         form = r.choice("ssii" + FORMS_ANY) if K == "v" else r.choice("ssii" + FORMS_ANY + FORMS_MAT + FORMS_MAT)
     m = 1 if K == "v" else r.choice([1, 2, 3, 5, 17])
     # forms that go through rows / columns of the explicit inverse (r j x y; p q from the right: X e_k = B (A^-1 e_k))
     # are forward stable only: generated on well-conditioned systems, where the 1e-9 residual bound is sound
-    wc = form in "rjpqxy"
+    wc = form in "rjpqxyl"
     if wc and tag == "semi":
         n = min(n, 24)
     s = 0
@@ -688,7 +690,10 @@ def gen_cases(ctx):
     for n in sizes(ctx, r, 25 if q else 0) * (1 if q else 3):
         cases.append(gen_solve(r, n))
     # every form of writing / consuming the solve expression x every system tag x both sides, on every run
-    for form in FORMS_ANY + FORMS_MAT:
+    tforms = FORMS_TRANS if trans_forms_available(ctx) else ""
+    ctx.cov["transposed_solve_forms"] = (f"exercised (t c l), probe level {trans_forms_level(ctx)}" if tforms
+                                         else "not instantiable in this tree (compile probe): not exercised")
+    for form in FORMS_ANY + FORMS_MAT + tforms:
         for tag in TAGS:
             for left in (True, False):
                 n = r.choice([2, 3, 4, 5, 6, 7, 9, 12])
@@ -898,11 +903,59 @@ def cg_zero_rhs(t):
     return False
 
 
+TRANS_PROBE = """#include <shark/LinAlg/BLAS/remora.hpp>
+using namespace remora;
+void c02_probe(matrix<double> const& A, MATB const& B, vector<double> const& v){
+	matrix<double> X = trans(solve(A, B, lower(), left()));
+	matrix<double> Y = trans(solve(A, B, indefinite_full_rank(), right()));
+	auto const e = solve(A, B, symm_pos_def(), left());
+	vector<double> c = column(e, 0);
+	vector<double> r = v % solve(A, B, symm_semi_pos_def(), left());
+	vector<double> q = v % solve(A, B, conjugate_gradient(), right());
+}
+"""
+
+
+def trans_forms_level(ctx):
+    """does `trans(solve(A,B,tag,side))` (and with it column(.,k), v % .) instantiate in this tree?  In the pinned tree
+    matrix_transpose_optimizer<matrix_matrix_solve<..>> names a member no tag has.  A syntax-only compile of a 10-line
+    probe decides (cached by the hash of the headers involved): 0 = no; 1 = only for A and B of the same type (a
+    specialisation that builds both sub-optimisers from one operand type); 2 = for operands of different orientation too."""
+    import subprocess
+    inc = os.path.join(core.REPO, "include")
+    hdr = "".join(core.file_sha(os.path.join(inc, "shark/LinAlg/BLAS", f)) for f in
+                  ("solve.hpp", "decompositions.hpp", "detail/structure.hpp", "proxy_expressions.hpp", "detail/expression_optimizers.hpp"))
+    key = core.sha(hdr + TRANS_PROBE)[:16]
+    d = os.path.join(core.CACHE, "c02probe"); os.makedirs(d, exist_ok=True)
+    res = os.path.join(d, key + ".level")
+    if os.path.exists(res):
+        return int(open(res).read().strip())
+    level = 0
+    for lv, matb in ((1, "matrix<double>"), (2, "matrix<double,column_major>")):
+        src = os.path.join(d, f"{key}-{lv}.cpp")
+        with open(src, "w") as f:
+            f.write(TRANS_PROBE)
+        p = subprocess.run(["g++", "-std=c++11", "-DNDEBUG", "-w", "-fsyntax-only", "-DMATB=" + matb, "-I" + inc, src],
+                           stdout=subprocess.PIPE, stderr=subprocess.STDOUT, text=True)
+        if p.returncode != 0:
+            break
+        level = lv
+    with open(res, "w") as f:
+        f.write(str(level))
+    return level
+
+
+def trans_forms_available(ctx):
+    return trans_forms_level(ctx) > 0
+
+
 def build(ctx):
     from concurrent.futures import ThreadPoolExecutor
+    lv = trans_forms_level(ctx)
+    extra = [f"-DC02_TRANS_FORMS={lv}"] if lv else []
     with ThreadPoolExecutor(max_workers=2) as ex:
-        fa = ex.submit(ctx.harness, "c02", ["c02.cpp"])
-        fb = ex.submit(ctx.harness, "c02blas", ["c02.cpp"], ["-DC02_USE_SHARK_H"])
+        fa = ex.submit(ctx.harness, "c02", ["c02.cpp"], extra)
+        fb = ex.submit(ctx.harness, "c02blas", ["c02.cpp"], ["-DC02_USE_SHARK_H"] + extra)
         return fa.result(), fb.result()
 
 
